@@ -21,7 +21,9 @@ def make_replay(prop, ob, ctx):
                 rp['verifier_output'] = fails[0]['desc']
         except Exception as ex:  # pragma: no cover
             rp['playback_error'] = str(ex)
-    if ob['engine'] == 'verus':
+    if ob.get('standin_input'):
+        rp['input'] = ob['standin_input']
+    elif ob['engine'] == 'verus':
         try:
             rp['input'] = search_input(prop, ob)
         except Exception as ex:  # pragma: no cover
@@ -85,6 +87,17 @@ SEARCH = [
     (r'parser::parse_language_identifier_from_iter', ['search', 'lid'], 'lid'),
     (r'unic_locale_impl::|locale', ['search', 'locale'], 'locale'),
 ]
+
+
+def search_kind(kind, seed=0):
+    if not build():
+        return None
+    r = common.run([VW, 'search', kind, str(seed)], timeout=600)
+    out = (r['out'] or '').strip()
+    if out.startswith('FOUND '):
+        _, hx, desc = out.split(' ', 2)
+        return {'kind': 'vw', 'args': [kind, hx], 'hex': hx, 'ascii': bytes.fromhex(hx).decode('latin1'), 'found_by': 'search ' + kind, 'desc': desc}
+    return None
 
 
 def search_input(prop, ob, seed=0):
